@@ -50,7 +50,15 @@ def main():
         subprocess.run(["git", "-C", "/repo", "worktree", "add", "-q", "--detach", wt, "HEAD"], check=True)
         env = dict(os.environ, PYTHONPATH=wt, HOME=tempfile.mkdtemp(prefix="vet-home-"))
 
+        sub = os.environ.get("IMPORT_DEMO_DIR", "")  # some demos locate the project relative to their own path (seeded_out/<k>/demo.py)
+
         def run_demo():
+            if sub:
+                os.makedirs(os.path.join(wt, sub), exist_ok=True)
+                shutil.copy(demo, os.path.join(wt, sub, os.path.basename(demo)))
+                r = subprocess.run([PY, os.path.join(sub, os.path.basename(demo))], cwd=wt, env=env, capture_output=True, text=True, timeout=600)
+                shutil.rmtree(os.path.join(wt, sub.split("/")[0]), ignore_errors=True)
+                return r.returncode, (r.stdout + r.stderr)[-400:]
             shutil.copy(demo, os.path.join(wt, os.path.basename(demo)))
             if os.path.basename(demo).endswith("_test.py") or os.path.basename(demo).startswith("test_"):
                 cmd = [PY, "-m", "pytest", "-q", "-p", "no:cacheprovider", os.path.basename(demo)]
